@@ -365,6 +365,8 @@ def sc_c06(name, seed, mtu, bridged):
         return [(rng.choice([0, 1]), rng.choice([0, 0, 1, 255, rng.randrange(256)]),
                  rng.choice([OWN, rnd_mac(rng)]), rng.choice([PEER, X, rnd_mac(rng)])) for _ in range(n)]
 
+    for sq in (1, 0xFF, 0x100, 0x7FFF, 0x8000, 0xFF00, 0xFFFF, 0x0101):       # representation boundaries of the sequence number
+        s.rx(1, emit(m, OWN, descs(rng.choice([1, 2, 3])), seq=sq, eth_src=eth))
     ns = [1, 2, 3, cap - 1, cap] + [rng.randrange(1, cap + 1) for _ in range(3)]
     for n in ns:
         seq += 1
@@ -826,6 +828,11 @@ def sc_c01(name, seed, mtu, wifi, pairs, nrand):
         s.rx(1, f[:max(ln, 0)] if rng.random() < 0.3 else f, length=min(ln, mtu), fill=rng.choice([0, 0xFF, 1, rng.randrange(256)]), all_entries=True)
         if rng.random() < 0.1:
             s.adv(rng.choice([0, 1, 100, 999, 1000, 1001, 31000, 61000, 120000]))
+    # every request kind truncated around its fixed header, the rest of the buffer holding stale bytes
+    for op in (0, 2, 6, 11, 8, 1):
+        base = header(rng.choice([0, 1]), op, own, M1, own, M1, rng.randrange(1, 65536)) + bytes([0x12, 0x34, 0, 2]) + own + PEER
+        for ln in (30, 31, 32, 33, 34, 35, 36, 37, 41, 42, 47, 48):
+            s.rx(1, base[:ln], length=ln, fill=rng.choice([0xFF, 0xFF, 1, 0x80]), all_entries=True)
     for _ in range(nrand):
         x = rng.random()
         f = h.one()
